@@ -142,7 +142,7 @@ theorem evalStep_ext (h : Ext rec rec') (k k' : Nat) (hk : k ≤ k') (c : Ctx) (
         | r => r) rfl hne
   | not id e1 =>
     simp only [evalStep] at hne ⊢
-    exact call_ext h c e1 [] pt w
+    exact call_ext h { c with neg := !c.neg } e1 [] pt w
       (fun r => match r with
         | .ok _ _ _ w' => .fail env (rollback E w' w.state)
         | .fail _ w' => .ok .nil pt env (rollback E w' w.state)
